@@ -69,11 +69,26 @@ func concScenarios() []concScen {
 	// a reader that looked the entry up before its deadline extends it (access-based expiry, no bucket lock) while a
 	// writer that started after the deadline is between the steps of its operation on the same key: the writer must
 	// act on one decision (expired or not) throughout
-	for _, w := range []string{"sia 1", "set 1", "inv 1", "cw 1", "cia 1", "cipw 1", "ci 1"} {
+	for _, w := range []string{"sia 1", "set 1", "inv 1", "cw 1", "cia 1", "cipw 1", "ci 1", "load 1 val", "bulk 1,2 full"} {
 		acc := CacheCfg{Expiry: "accessing", TTL: 100, Executor: "caller", ClockStart: 1 << 40}
+		if w == "set 1" || w == "sia 1" || w == "inv 1" || w == "cw 1" {
+			// the same with a deadline setter instead of a reader (any expiry policy: SetExpiresAfter works without the lock too)
+			wr := CacheCfg{Expiry: "writing", TTL: 100, Executor: "caller", ClockStart: 1 << 40}
+			out = append(out, concScen{"lateSetter‖" + w, wr, []string{"set 1", "set 2", "adv 60"}, [][]string{{"sea 1 500"}, {"adv 50", w}}, "native"})
+		}
 		out = append(out, concScen{"lateReader‖" + w, acc, []string{"set 1", "set 2", "adv 60"}, [][]string{{"get 1"}, {"adv 50", w}}, "native"})
 		accb := CacheCfg{MaxSize: 3, Expiry: "accessing", TTL: 100, Executor: "caller", ClockStart: 1 << 40}
 		out = append(out, concScen{"lateReader‖" + w + "(bounded)", accb, []string{"set 1", "set 2", "adv 60"}, [][]string{{"get 1"}, {"adv 50", w}}, "native"})
+	}
+	// the same late actor against the expiry sweep: the wheel has selected the entry when the extension lands
+	for _, late := range []string{"get 1", "sia 1", "sea 1 50000000000"} {
+		big := CacheCfg{Expiry: "accessing", TTL: 10 * tickNs, Executor: "caller", ClockStart: 1 << 40}
+		setup := []string{"set 1", "set 2", fmt.Sprintf("adv %d", 10*tickNs-10)}
+		sweep := []string{fmt.Sprintf("adv %d", 2*tickNs), "cleanup"}
+		out = append(out, concScen{"late " + late + "‖sweep", big, setup, [][]string{{late}, sweep}, "native"})
+		bigb := big
+		bigb.MaxSize = 3
+		out = append(out, concScen{"late " + late + "‖sweep(bounded)", bigb, setup, [][]string{{late}, sweep}, "native"})
 	}
 	// S6 load install || eviction
 	out = append(out, concScen{"load‖insert-evict/caller", CacheCfg{MaxSize: 2, Executor: "caller"}, two, [][]string{{"load 3"}, {"set 4"}}, "native"})
